@@ -6,7 +6,8 @@ from props.scopes_common import TRACE_KW, ScopesDriver, gen_trace
 
 SPEC = "Scopes"
 MANIFEST = dict(
-    text="Scopes.tla with 2-3 concurrently running tasks: Start(t,u,spawn|plain) copies the spawner's context triple; "
+    text="(Also: a block object prepared by one task and entered by another sees the ENTERING task's state plus what the "
+         "block supplies: Prepare / EnterPrepared.) Scopes.tla with 2-3 concurrently running tasks: Start(t,u,spawn|plain) copies the spawner's context triple; "
          "Isolation is an action property (no action of one task changes what any other task at a gate sees) and "
          "LexicalLookup is evaluated per task over inherited snapshot + own frames. TLC enumerates all interleavings "
          "at gate granularity; every edge is replayed into real tasks created with ctx.spawn / loop.create_task, and "
